@@ -235,6 +235,10 @@ class Machine:
             self._budget_check(a)
             self.w_deps = None
         elif st == S.WORK:
+            if wi and wa:
+                self._fail(["C12"], "work_restart_and_deps",
+                           "restart data and adjoint dependencies written to "
+                           "WORK by one Forward", a)
             if wa:
                 if not self.info.multi_deps:
                     if n1t - n0 != 1:
@@ -251,7 +255,8 @@ class Machine:
         else:
             # StorageType.NONE (or anything else): nothing is kept
             self.w_deps = None
-        self.w_ics = None
+        # restart data written to WORK stays there until the next Forward
+        self.w_ics = (n0, n1t) if (st == S.WORK and wi) else None
         self.fwd = n1t
         if n1t > n0:
             self.fwd_steps += n1t - n0
